@@ -79,6 +79,18 @@ async fn read_event_buffer(
     let mut guard = file.lock_read().await.map_err(|e| e.error)?;
 
     let offset = record.value();
+
+    // The range is read from the file so make sure it
+    // is inside the file before allocating a buffer
+    let file_len = vfs::metadata(file_path.as_ref()).await?.len();
+    if offset.start > offset.end || offset.end > file_len {
+        return Err(std::io::Error::new(
+            std::io::ErrorKind::UnexpectedEof,
+            "event log record is outside the file",
+        )
+        .into());
+    }
+
     let row_len = offset.end - offset.start;
 
     guard.seek(SeekFrom::Start(offset.start)).await?;
@@ -545,6 +557,15 @@ where
         item: &EventLogRecord,
     ) -> StdResult<T, E> {
         let value = item.value();
+
+        let file_len = vfs::metadata(&self.data).await?.len();
+        if value.start > value.end || value.end > file_len {
+            return Err(std::io::Error::new(
+                std::io::ErrorKind::UnexpectedEof,
+                "event log record is outside the file",
+            )
+            .into());
+        }
 
         let file = File::open(&self.data).await?;
         let mut guard = file.lock_read().await.map_err(|e| e.error)?;
